@@ -26,6 +26,8 @@ V = {
     "implblock": 'pub struct X5;\n#[::entrait::entrait]\nimpl A4Impl for X5 {\n    fn m(deps: &impl ::core::any::Any, a: i64, b: i64) -> i64 { a - b }\n}',
     "concrete": 'pub struct Cfg;\n#[::entrait::entrait(A6)]\nfn a6(cfg: &Cfg, x: i64) -> i64 { x }',
     "mocks": '#[::entrait::entrait_export(pub A7, mock_api = A7Mock, unimock, mockall, ?Send)]\npub async fn a7<D: ::core::any::Any>(deps: &D, (a, b): (i64, i64), a7: i64) -> i64 where D: Sync { a7 }',
+    "multibound": 'pub trait B0 {} pub trait B1 {} pub trait B2 {} pub trait B3 {}\n#[::entrait::entrait(pub A8)]\npub mod m8 {\n    use super::*;\n    pub fn a(deps: &(impl B0 + B1 + B3)) {}\n    pub fn b(deps: &(impl B1 + B2 + B0)) {}\n    pub fn c<D: B3 + B2>(deps: &D) where D: B0 + B3 {}\n}',
+    "rename": '#[::entrait::entrait(A9)]\nfn a9(deps: &impl ::core::any::Any, a9: i64, a9_: i64, a9__: i64, (u, v): (u8, u8)) {}',
 }
 VN = list(V)
 ENVS = {
